@@ -173,6 +173,19 @@ struct Scenario {
     programs: Vec<Vec<TOp>>,
 }
 
+/// an escaped string literal of about 9 KiB
+fn long_escaped() -> &'static str {
+    static S: std::sync::OnceLock<String> = std::sync::OnceLock::new();
+    S.get_or_init(|| {
+        let mut s = String::from("\"");
+        for i in 0..600 {
+            s.push_str(if i % 7 == 0 { "caf\\u00e9 \\n " } else { "0123456789abcde" });
+        }
+        s.push('"');
+        s
+    })
+}
+
 fn scenarios(quick: bool) -> Vec<Scenario> {
     use TOp::*;
     let esc = "\"caf\\u00e9 \\\"quoted\\\" \\n tail that is long enough to need a heap buffer for the decoded text\"";
@@ -195,6 +208,14 @@ fn scenarios(quick: bool) -> Vec<Scenario> {
         v.push(Scenario { name: "owned-arr-3x", owned: true, json: arr, programs: vec![vec![GetIdx, GetIdx], vec![CloneReadDrop], vec![AsContainer]] });
         v.push(Scenario { name: "owned-str-3x", owned: true, json: esc, programs: vec![vec![AsStr], vec![CloneReadDrop], vec![AsStr]] });
     }
+    // values that pass validation but cannot be decoded (a lone surrogate escape, a number beyond f64): the
+    // negative outcome goes through the same cache protocol
+    v.push(Scenario { name: "owned-undecodable-str", owned: true, json: "\"undecodable tail \\ud800\"", programs: vec![vec![AsStr], vec![AsStr, CloneReadDrop]] });
+    v.push(Scenario { name: "owned-undecodable-num", owned: true, json: "1e999", programs: vec![vec![AsNumber], vec![AsNumber]] });
+    v.push(Scenario { name: "owned-obj-undecodable-children", owned: true, json: "{\"s\":\"x\\ud800\",\"k\":1e999,\"id\":3}", programs: vec![vec![GetKey], vec![GetKey, GetDup]] });
+    // a long escaped string (several KiB of raw text): decoding takes long, clones arrive meanwhile
+    v.push(Scenario { name: "lazy-long-as_str+clone", owned: false, json: long_escaped(), programs: vec![vec![AsStr], vec![CloneAsStrDrop]] });
+    v.push(Scenario { name: "owned-long-as_str+clone", owned: true, json: long_escaped(), programs: vec![vec![AsStr], vec![CloneReadDrop, AsStr]] });
     // (appended so that the scenario indices used by saved replay files stay stable)
     let dup = "{\"id\":1,\"kind\":\"k\",\"tag\":\"t\\n\",\"id\":2,\"z\":[3]}";
     v.push(Scenario { name: "owned-dupkey-get", owned: true, json: dup, programs: vec![vec![GetTag, GetDup], vec![GetDup, GetTag]] });
